@@ -167,7 +167,7 @@ Definition wf_case (cfg : config) (keys : list Z) : Prop :=
   NoDup (map mkey (cC cfg)) /\ NoDup keys /\ Forall (fun k => ccontains cfg k = true) keys /\
   0 <= cfirst cfg /\
   (* H-ENG: the execution layer accepts what the proposer proposes *)
-  (forall n, cpok cfg n (100 + n mod 100) = true /\ cpsize cfg (100 + n mod 100) <= cmaxpay cfg).
+  (forall n p, 100 <= p < 500 -> cpok cfg n p = true /\ cpsize cfg p <= cmaxpay cfg).
 
 Definition C06_full : Prop :=
   forall cfg keys prefix suffix k,
